@@ -165,6 +165,11 @@ func (e *Env) Prepare(variants ...string) error {
 			return troublef("go.mod of the instrumented copy: %v", err)
 		}
 		e.logf("instrumented: %d files, %d sites %v; skipped %v; unmodelled %v", rep.Files, len(rep.Sites), rep.Counts, rep.Skipped, rep.Unmodelled)
+		if len(rep.Unmodelled) > 0 {
+			// a source of blocking, time or order the simulator has no model for: what it would report
+			// about this tree, clean or not, could not be trusted
+			return troublef("the tree uses primitives the simulator does not model: %v", rep.Unmodelled)
+		}
 	}
 	type job struct {
 		variant, soy string
